@@ -39,6 +39,7 @@ def reset_environment():
     from . import refmodel
 
     refmodel.set_single(False)
+    refmodel.set_torch_rounding(False)
     config.set_show_progress(False)
     np.random.seed(20240229)
 
